@@ -73,9 +73,6 @@ func kindByName(name string) (kind, bool) {
 	return kind{}, false
 }
 
-// framedSSE: the answer to a POST of this kind is an SSE stream (both the server option and the Accept header are needed).
-func (k kind) framedSSE() bool { return k.Tr == "streamable" && k.AcceptSSE && k.PostSSE }
-
 type server struct {
 	k        kind
 	groups   [][]int
@@ -92,36 +89,221 @@ type server struct {
 var notifMethods = []string{"notifications/initialized", "notifications/cancelled", "notifications/verif"}
 
 func newServer(k kind, groups [][]int, emptyOption bool) (*server, error) {
-	return newServerWith(k, groups, emptyOption, &registry{}, nil)
+	return buildServer(buildSpec{k: k, groups: groups, emptyOpt: emptyOption, reg: &registry{}})
 }
 
 // newServerWith: `pre` (optional) = ready-made middleware slices, one per option, handed to WithMiddleware /
 // WithSSEMiddleware exactly as they are (`pre[i]...`), so that callers can share a slice between servers.
 func newServerWith(k kind, groups [][]int, emptyOption bool, reg *registry, pre [][]mcp.Middleware) (*server, error) {
-	s := &server{k: k, groups: groups, reg: reg}
+	return buildServer(buildSpec{k: k, groups: groups, emptyOpt: emptyOption, reg: reg, pre: pre})
+}
+
+// buildSpec: how one server is constructed.
+type buildSpec struct {
+	k        kind
+	groups   [][]int
+	emptyOpt bool
+	reg      *registry
+	pre      [][]mcp.Middleware
+	// order = explicit order of ALL constructor options (nil = the classic order: configuration options first, then the
+	// middleware options). Entries: "mw:<i>" = the middleware option of groups[i], "mw:empty" = a middleware option without
+	// arguments, anything else = the name of an option constructor of the library (see streamableOption / sseOption).
+	order []string
+	// post: after construction call the public configuration methods that exist besides the options (Server.SetMethodNameModifier)
+	post bool
+}
+
+const (
+	xPath       = "/verif/mcp-x" // WithServerPath in an explicit order
+	xBasePath   = "/verif-base"  // WithBasePath
+	xSSEEnd     = "/events"      // WithSSEEndpoint
+	xMessageEnd = "/msg"         // WithMessageEndpoint
+)
+
+// streamableOthers / sseOthers: every option the constructors accept besides the middleware option.
+// WithServerAddress, WithCustomServer and WithHTTPServer only matter to Start() (which binds a port and is never called
+// in-process); they are applied all the same.
+var streamableOthers = []string{"WithServerLogger", "WithServerPath", "WithGetSSEEnabled", "WithPostSSEEnabled", "WithStatelessMode", "WithoutSession",
+	"WithNotificationBufferSize", "WithHTTPContextFunc", "WithToolListFilter", "WithPromptListFilter", "WithResourceListFilter", "WithServerAddress", "WithCustomServer"}
+
+var sseOthers = []string{"WithSSEServerLogger", "WithBasePath", "WithMessageEndpoint", "WithSSEEndpoint", "WithHTTPServer", "WithKeepAlive", "WithKeepAliveInterval",
+	"WithSSEContextFunc", "WithSSEToolListFilter", "WithSSEPromptListFilter", "WithSSEResourceListFilter", "WithSSESessionIDGenerator"}
+
+// otherOptions: the options (besides middlewares) a server of this kind is built with in an explicit order: all of them,
+// WithoutSession only where sessions are disabled (it cannot be applied without changing the configuration).
+func otherOptions(k kind) []string {
+	if k.Tr == "sse" {
+		return append([]string{}, sseOthers...)
+	}
+	var l []string
+	for _, o := range streamableOthers {
+		if o == "WithoutSession" && k.Mode != "sessionsOff" {
+			continue
+		}
+		l = append(l, o)
+	}
+	return l
+}
+
+type seqIDs struct{ n atomic.Int64 }
+
+func (g *seqIDs) GenerateSessionID(r *http.Request) string {
+	return fmt.Sprintf("verif-sse-%d", g.n.Add(1))
+}
+
+func noopModifier(ctx context.Context, method, toolName string) {}
+
+func (b *buildSpec) middlewares(entry string) ([]mcp.Middleware, bool) {
+	if entry == "mw:empty" {
+		return nil, true
+	}
+	var gi int
+	if n, err := fmt.Sscanf(entry, "mw:%d", &gi); err != nil || n != 1 || gi < 0 || gi >= len(b.groups) {
+		return nil, false
+	}
+	if b.pre != nil {
+		return b.pre[gi], true
+	}
+	var ms []mcp.Middleware
+	for _, id := range b.groups[gi] {
+		ms = append(ms, b.reg.middleware(id))
+	}
+	return ms, true
+}
+
+func (b *buildSpec) streamableOption(name string) (mcp.ServerOption, error) {
+	g := b.reg
+	if ms, ok := b.middlewares(name); ok {
+		return mcp.WithMiddleware(ms...), nil
+	}
+	switch name {
+	case "WithServerLogger":
+		return mcp.WithServerLogger(hk.QuietLogger{}), nil
+	case "WithServerPath":
+		return mcp.WithServerPath(xPath), nil
+	case "WithGetSSEEnabled":
+		return mcp.WithGetSSEEnabled(false), nil
+	case "WithPostSSEEnabled":
+		return mcp.WithPostSSEEnabled(b.k.PostSSE), nil
+	case "WithStatelessMode":
+		return mcp.WithStatelessMode(b.k.Mode == "stateless"), nil
+	case "WithoutSession":
+		if b.k.Mode != "sessionsOff" {
+			return nil, fmt.Errorf("WithoutSession on a server of mode %s", b.k.Mode)
+		}
+		return mcp.WithoutSession(), nil
+	case "WithNotificationBufferSize":
+		return mcp.WithNotificationBufferSize(7), nil
+	case "WithHTTPContextFunc":
+		return mcp.WithHTTPContextFunc(ctxFunc), nil
+	case "WithToolListFilter":
+		return mcp.WithToolListFilter(g.toolFilter), nil
+	case "WithPromptListFilter":
+		return mcp.WithPromptListFilter(g.promptFilter), nil
+	case "WithResourceListFilter":
+		return mcp.WithResourceListFilter(g.resourceFilter), nil
+	case "WithServerAddress":
+		return mcp.WithServerAddress("127.0.0.1:0"), nil
+	case "WithCustomServer":
+		return mcp.WithCustomServer(&http.Server{}), nil
+	}
+	return nil, fmt.Errorf("unknown streamable option %q", name)
+}
+
+func (b *buildSpec) sseOption(name string) (mcp.SSEOption, error) {
+	g := b.reg
+	if ms, ok := b.middlewares(name); ok {
+		return mcp.WithSSEMiddleware(ms...), nil
+	}
+	switch name {
+	case "WithSSEServerLogger":
+		return mcp.WithSSEServerLogger(hk.QuietLogger{}), nil
+	case "WithBasePath":
+		return mcp.WithBasePath(xBasePath), nil
+	case "WithMessageEndpoint":
+		return mcp.WithMessageEndpoint(xMessageEnd), nil
+	case "WithSSEEndpoint":
+		return mcp.WithSSEEndpoint(xSSEEnd), nil
+	case "WithHTTPServer":
+		return mcp.WithHTTPServer(&http.Server{}), nil
+	case "WithKeepAlive":
+		return mcp.WithKeepAlive(false), nil
+	case "WithKeepAliveInterval":
+		return mcp.WithKeepAliveInterval(time.Hour), nil
+	case "WithSSEContextFunc":
+		return mcp.WithSSEContextFunc(ctxFunc), nil
+	case "WithSSEToolListFilter":
+		return mcp.WithSSEToolListFilter(g.toolFilter), nil
+	case "WithSSEPromptListFilter":
+		return mcp.WithSSEPromptListFilter(g.promptFilter), nil
+	case "WithSSEResourceListFilter":
+		return mcp.WithSSEResourceListFilter(g.resourceFilter), nil
+	case "WithSSESessionIDGenerator":
+		return mcp.WithSSESessionIDGenerator(&seqIDs{}), nil
+	}
+	return nil, fmt.Errorf("unknown SSE option %q", name)
+}
+
+func has(l []string, x string) bool {
+	for _, y := range l {
+		if x == y {
+			return true
+		}
+	}
+	return false
+}
+
+func buildServer(b buildSpec) (*server, error) {
+	k, groups, emptyOption, pre := b.k, b.groups, b.emptyOpt, b.pre
+	s := &server{k: k, groups: groups, reg: b.reg, order: b.order}
 	g := s.reg
 	echo := mcp.NewTool("echo", mcp.WithDescription("echoes the request modifications it sees"))
 	boom := mcp.NewTool("boom", mcp.WithDescription("always fails"))
 	prompt := &mcp.Prompt{Name: "p1", Description: "a prompt"}
 	resource := &mcp.Resource{Name: "r1", URI: "verif://r1", Description: "a resource", MimeType: "text/plain"}
 	if k.Tr == "streamable" {
-		extra := []mcp.ServerOption{mcp.WithHTTPContextFunc(ctxFunc),
-			mcp.WithToolListFilter(g.toolFilter), mcp.WithPromptListFilter(g.promptFilter), mcp.WithResourceListFilter(g.resourceFilter)}
-		for gi, grp := range groups {
-			var ms []mcp.Middleware
-			if pre != nil {
-				ms = pre[gi]
-			} else {
-				for _, id := range grp {
-					ms = append(ms, g.middleware(id))
+		if b.order == nil {
+			extra := []mcp.ServerOption{mcp.WithHTTPContextFunc(ctxFunc),
+				mcp.WithToolListFilter(g.toolFilter), mcp.WithPromptListFilter(g.promptFilter), mcp.WithResourceListFilter(g.resourceFilter)}
+			for gi, grp := range groups {
+				var ms []mcp.Middleware
+				if pre != nil {
+					ms = pre[gi]
+				} else {
+					for _, id := range grp {
+						ms = append(ms, g.middleware(id))
+					}
 				}
+				extra = append(extra, mcp.WithMiddleware(ms...))
 			}
-			extra = append(extra, mcp.WithMiddleware(ms...))
+			if emptyOption {
+				extra = append(extra, mcp.WithMiddleware())
+			}
+			s.fx = hk.NewFixture(hk.SrvCfg{Mode: k.Mode, Get: false, PostSSE: k.PostSSE}, extra...)
+		} else {
+			// the options exactly in the order asked for; the fixture literal as hk.NewFixture builds it
+			var opts []mcp.ServerOption
+			for _, name := range b.order {
+				o, err := b.streamableOption(name)
+				if err != nil {
+					return nil, err
+				}
+				opts = append(opts, o)
+			}
+			srv := mcp.NewServer("verif-server", "1.2.3", opts...)
+			if b.post {
+				srv.SetMethodNameModifier(noopModifier)
+			}
+			ts := httptest.NewUnstartedServer(srv.Handler())
+			ts.Config.ErrorLog = hk.QuietStdLog()
+			ts.Start()
+			path := "/mcp"
+			if has(b.order, "WithServerPath") {
+				path = xPath
+			}
+			tr := &http.Transport{MaxIdleConnsPerHost: 64, DisableCompression: true}
+			s.fx = &hk.Fixture{S: srv, TS: ts, URL: ts.URL + path, HC: &http.Client{Transport: tr}}
 		}
-		if emptyOption {
-			extra = append(extra, mcp.WithMiddleware())
-		}
-		s.fx = hk.NewFixture(hk.SrvCfg{Mode: k.Mode, Get: false, PostSSE: k.AcceptSSE}, extra...)
 		s.fx.S.RegisterTool(echo, g.toolHandler(false))
 		s.fx.S.RegisterTool(boom, g.toolHandler(true))
 		s.fx.S.RegisterPrompt(prompt, func(ctx context.Context, req *mcp.GetPromptRequest) (*mcp.GetPromptResult, error) {
@@ -145,21 +327,39 @@ func newServerWith(k kind, groups [][]int, emptyOption bool, reg *registry, pre 
 		}
 		return s, nil
 	}
-	opts := []mcp.SSEOption{mcp.WithSSEServerLogger(hk.QuietLogger{}), mcp.WithSSEContextFunc(ctxFunc),
-		mcp.WithSSEToolListFilter(g.toolFilter), mcp.WithSSEPromptListFilter(g.promptFilter), mcp.WithSSEResourceListFilter(g.resourceFilter)}
-	for gi, grp := range groups {
-		var ms []mcp.Middleware
-		if pre != nil {
-			ms = pre[gi]
-		} else {
-			for _, id := range grp {
-				ms = append(ms, g.middleware(id))
+	var opts []mcp.SSEOption
+	ssePath := "/sse"
+	if b.order == nil {
+		opts = []mcp.SSEOption{mcp.WithSSEServerLogger(hk.QuietLogger{}), mcp.WithSSEContextFunc(ctxFunc),
+			mcp.WithSSEToolListFilter(g.toolFilter), mcp.WithSSEPromptListFilter(g.promptFilter), mcp.WithSSEResourceListFilter(g.resourceFilter)}
+		for gi, grp := range groups {
+			var ms []mcp.Middleware
+			if pre != nil {
+				ms = pre[gi]
+			} else {
+				for _, id := range grp {
+					ms = append(ms, g.middleware(id))
+				}
 			}
+			opts = append(opts, mcp.WithSSEMiddleware(ms...))
 		}
-		opts = append(opts, mcp.WithSSEMiddleware(ms...))
-	}
-	if emptyOption {
-		opts = append(opts, mcp.WithSSEMiddleware())
+		if emptyOption {
+			opts = append(opts, mcp.WithSSEMiddleware())
+		}
+	} else {
+		for _, name := range b.order {
+			o, err := b.sseOption(name)
+			if err != nil {
+				return nil, err
+			}
+			opts = append(opts, o)
+		}
+		if has(b.order, "WithSSEEndpoint") {
+			ssePath = xSSEEnd
+		}
+		if has(b.order, "WithBasePath") {
+			ssePath = xBasePath + ssePath
+		}
 	}
 	s.sse = mcp.NewSSEServer("verif-server", "1.2.3", opts...)
 	s.sse.RegisterTool(echo, g.toolHandler(false))
@@ -177,9 +377,9 @@ func newServerWith(k kind, groups [][]int, emptyOption bool, reg *registry, pre 
 	s.ts.Config.ErrorLog = hk.QuietStdLog()
 	s.ts.Start()
 	tr := &http.Transport{MaxIdleConnsPerHost: 64, DisableCompression: true}
-	s.fx = &hk.Fixture{TS: s.ts, URL: s.ts.URL + "/sse", HC: &http.Client{Transport: tr}}
+	s.fx = &hk.Fixture{TS: s.ts, URL: s.ts.URL + ssePath, HC: &http.Client{Transport: tr}}
 	for i := 0; i < 2; i++ {
-		p, err := openSSE(s.ts.URL, s.fx.HC)
+		p, err := openSSE(s.ts.URL, ssePath, s.fx.HC)
 		if err != nil {
 			return nil, err
 		}
@@ -207,6 +407,7 @@ type answer struct {
 	sid     string         // session the server says the answer belongs to (header) / the SSE session
 	msg     map[string]any // the JSON-RPC answer (nil = none)
 	problem string
+	ctype   string // Content-Type of the answer (streamable)
 }
 
 func parseStreamableBody(r hk.RawResp) (map[string]any, string) {
@@ -251,6 +452,7 @@ func (s *server) send(body map[string]any, token string, which int, newSession b
 			return a
 		}
 		a.sid = r.Header.Get("Mcp-Session-Id")
+		a.ctype = r.Header.Get("Content-Type")
 		if want != "" && a.sid != want {
 			a.problem = fmt.Sprintf("answer carries session %q, request carried %q", a.sid, want)
 		}
@@ -298,9 +500,9 @@ type ssePeer struct {
 	extra   []string
 }
 
-func openSSE(base string, hc *http.Client) (*ssePeer, error) {
+func openSSE(base, ssePath string, hc *http.Client) (*ssePeer, error) {
 	ctx, cancel := context.WithCancel(context.Background())
-	req, _ := http.NewRequestWithContext(ctx, "GET", base+"/sse", nil)
+	req, _ := http.NewRequestWithContext(ctx, "GET", base+ssePath, nil)
 	req.Header.Set("Accept", "text/event-stream")
 	req.Header.Set(tokenHeader, "stream-open")
 	resp, err := hc.Do(req)
@@ -310,7 +512,7 @@ func openSSE(base string, hc *http.Client) (*ssePeer, error) {
 	}
 	if resp.StatusCode != 200 {
 		cancel()
-		return nil, fmt.Errorf("GET /sse: status %d", resp.StatusCode)
+		return nil, fmt.Errorf("GET %s: status %d", ssePath, resp.StatusCode)
 	}
 	p := &ssePeer{cancel: cancel, body: resp.Body, waiters: map[string]chan map[string]any{}}
 	ep := make(chan string, 1)
